@@ -265,6 +265,73 @@ def exhaustive_F(length):
             yield "F " + " ".join(t)
 
 
+import time
+import traceback
+
+BUDGET_S = 170          # wall-clock budget of the whole run: past it, searches are cut short (violations are still reported)
+PROJ = {}               # label -> projection of a reference line onto what that (fallback) harness can observe
+
+
+def over_budget(ctx):
+    return time.time() - getattr(ctx, "c10_t0", time.time()) > BUDGET_S
+
+
+def stage(ctx, name, fn, *a, **kw):
+    """run one stage; an exception is recorded (stage name + first line) and the run continues"""
+    try:
+        return fn(*a, **kw)
+    except Exception as ex:       # noqa: BLE001
+        tb = traceback.format_exc().strip().split("\n")
+        ctx.broken.append("stage %s raised %s: %s [%s]" % (name, type(ex).__name__, str(ex)[:300], tb[-3].strip() if len(tb) >= 3 else ""))
+        ctx.log("stage %s failed:\n%s" % (name, "\n".join(tb[-8:])))
+        return None
+
+
+def project_public(line):
+    """what the public-interface fallback harness can see of a reference line: every result + which names are present"""
+    out = []
+    if not line.strip():
+        return line
+    for step in line.split(" ; "):
+        res, _, dump = step.partition("|")
+        parts = []
+        for d in dump.split("#"):
+            names = sorted(int(e.split("=")[0]) for e in d.strip("[]").split() if e)
+            parts.append("[" + " ".join(str(n) for n in names) + "]")
+        out.append(res + "|" + "#".join(parts))
+    return " ; ".join(out)
+
+
+def compare(ctx, what, cases, model, impls):
+    """the real code vs the reference on the same cases.  Reference = the extracted model when it exists and runs, otherwise
+    the independent python oracle (so a missing / broken model never stops the search for a concrete input).
+    -> (mismatches [(i, label, impl line, reference line)], crashes, reference lines, reference name)"""
+    ref, refname = None, "model"
+    if model:
+        rc, ml, err = vlib.run_lines(ctx, model, [], cases)
+        if rc == 0 and len(ml) == len(cases):
+            ref = ml
+        else:
+            ctx.broken.append("stage model-run (%s): model driver failed rc=%s lines=%d/%d %s - python oracle used as the reference"
+                              % (what, rc, len(ml), len(cases), err[-200:]))
+    if ref is None:
+        ref, refname = [oracle(c) for c in cases], "python oracle"
+    mism, crashes = [], {}
+    for label, exe, args in impls:
+        if not exe:
+            continue
+        proj = PROJ.get(label)
+        rc, il, ierr = vlib.run_lines(ctx, exe, list(args), cases)
+        if rc != 0:
+            crashes[label] = (rc, ierr[-3000:], len(il))
+        for i in range(len(cases)):
+            got = il[i] if i < len(il) else "<no output: harness died>"
+            want = proj(ref[i]) if proj else ref[i]
+            if got != want:
+                mism.append((i, label, got, want))
+    return mism, crashes, ref, refname
+
+
 def report(ctx, exe, cases, impls, mism, crashes):
     for label, (rc, err, n) in crashes.items():
         ctx.violation("harness %s crashed (rc=%d) — sanitizer/abort on the real code" % (label, rc),
@@ -276,21 +343,26 @@ def report(ctx, exe, cases, impls, mism, crashes):
             continue
         seen.add(label)
         exe, mode = [(e, a) for (l, e, a) in impls if l == label][0]
+        proj = PROJ.get(label) or (lambda x: x)
         kind, ops = split_case(cases[i])
 
-        def fails(ops, mode=mode, kind=kind, exe=exe):
+        def fails(ops, mode=mode, kind=kind, exe=exe, proj=proj):
+            if over_budget(ctx) or not ops:
+                return False              # stop shrinking, keep what we have / the empty history never fails
             line = kind + " " + " ".join(ops)
             rc, out, err = ctx.run_exe(exe, mode, stdin=line + "\n")
-            return out.strip("\n") != oracle(line)
+            return out.strip("\n") != proj(oracle(line))
 
-        exp = oracle(cases[i])
+        exp = proj(oracle(cases[i]))
         if il != exp:
-            small = vlib.shrink_list(ops, fails)
+            small = vlib.shrink_list(ops, fails) if not over_budget(ctx) else ops
+            if not small or not fails(small) and small != ops:
+                small = ops
             line = kind + " " + " ".join(small)
             rc, out, err = ctx.run_exe(exe, mode, stdin=line + "\n")
-            shown = "ParameterizedObject" if kind == "P" else label
+            shown = "ParameterizedObject" if kind in ("P", "Q") and "fallback" not in label else label
             ctx.violation("%s disagrees with the reference insertion-ordered map" % shown,
-                          {"label": shown, "case": line, "observed": out.strip(), "required": oracle(line),
+                          {"label": shown, "case": line, "observed": out.strip(), "required": proj(oracle(line)),
                            "model": ml if small == ops else None, "original_case": cases[i]})
         else:
             ctx.broken.append("correspondence C10 model vs %s on case %r: impl=%r model=%r (impl satisfies the reference map)"
@@ -311,7 +383,7 @@ def wide_arguments(ctx, model, exe, r, bad_facts):
     exh = list(exhaustive_C(tbl, ctx.pick(3, 4)))
     cases += exh
     impls = [(WIDE[m][0], exe, [m]) for m in ("fd", "hi", "ui", "sc")]
-    mism, crashes, mlines = vlib.differential(ctx, cases, model, impls)
+    mism, crashes, mlines, _ = compare(ctx, "wide arguments", cases, model, impls)
     ctx.count(len(cases) * len(impls))
     for c, ml in zip(cases, mlines):
         if len(set(x.split("|")[1] for x in ml.split(" ; "))) >= 3:
@@ -454,7 +526,7 @@ def regen_facts(ctx):
         factgen.main(["--repo", ctx.repo, "--out", gen_v, "--json", facts_js, "--work", os.path.join(ctx.build, "ast")])
         facts = json.load(open(facts_js))
     except Exception as ex:
-        ctx.broken.append("fact extraction failed: %r" % (repr(ex)[:400],))
+        ctx.broken.append("stage fact-extraction: props/C10/factgen.py raised %s - Unknown tables written, source obligations fail closed, the rest runs" % repr(ex)[:400])
         facts = {"notes": [repr(ex)[:800]]}
         factgen.write_if_changed(gen_v, factgen.unknown_text())
     ctx.cov["source_facts"] = {"flatmap<int,int>": facts.get("flatmap", {}).get("ii"), "po<int>": facts.get("po", {}).get("int"),
@@ -499,23 +571,94 @@ def first_failing_lemmas(ctx):
     return out
 
 
+WIDER_SRC = ["rkcommon/common.cpp", "rkcommon/os/library.cpp"]
+
+
+def build_harnesses(ctx):
+    """(FlatMap harness, its label suffix, ParameterizedObject harness, public_only?) - each build is independent; a failed
+    build is retried once with a wider source list (a changed header may need more of the library), then with its fallback
+    variant (FlatMap<int,int> only / public interface only)"""
+    exe, exe_po = ctx.cxx_many([dict(sources=["harness.cpp"], out="harness_fm", flags=["-DC10_NO_PO"], sanitize="asan"),
+                                dict(sources=["harness.cpp"], out="harness_po", flags=["-DC10_NO_FM"], repo_sources=REPO_SRC, sanitize="asan")])
+    fm_min = public_only = False
+    if not exe:
+        exe = ctx.cxx(["harness.cpp"], "harness_fm_min", flags=["-DC10_NO_PO", "-DC10_FM_MIN"], sanitize="asan")
+        fm_min = bool(exe)
+        ctx.broken.append("stage harness-build: the FlatMap harness does not compile against this tree; fallback FlatMap<int,int>-only build %s"
+                          % ("runs instead" if exe else "does not compile either"))
+    if not exe_po:
+        exe_po = ctx.cxx(["harness.cpp"], "harness_po_wide", flags=["-DC10_NO_FM"], repo_sources=REPO_SRC + WIDER_SRC, libs=["-ldl"], sanitize="asan")
+        if exe_po:
+            ctx.broken.append("stage harness-build: the ParameterizedObject harness needed a wider source list (%s)" % WIDER_SRC)
+    if not exe_po:
+        exe_po = ctx.cxx(["harness.cpp"], "harness_po_public", flags=["-DC10_NO_FM", "-DC10_PUBLIC_ONLY"],
+                         repo_sources=REPO_SRC + WIDER_SRC, libs=["-ldl"], sanitize="asan")
+        public_only = bool(exe_po)
+        ctx.broken.append("stage harness-build: the ParameterizedObject harness (protected findParam/params_begin/params_end, Param fields) does "
+                          "not compile against this tree; public-interface fallback build %s" % ("runs instead" if exe_po else "does not compile either"))
+    return exe, fm_min, exe_po, public_only
+
+
+def strip_add(case):
+    t = case.split()
+    return " ".join([t[0]] + [x for x in t[1:] if not x.split(":")[-2:-1] == ["add"] and not x.startswith("add:")])
+
+
 def run(ctx):
-    facts = regen_facts(ctx)
-    res = ctx.coq_check(("Properties.v", "PropertiesFacts.v", "PropertiesFactsPO.v"))
+    ctx.c10_t0 = time.time()
+    try:
+        run_stages(ctx)
+    except Exception as ex:       # noqa: BLE001 - never abort: bin/vcheck writes the evidence after run() returns
+        ctx.broken.append("check aborted by %s: %s" % (type(ex).__name__, str(ex)[:300]))
+        ctx.log(traceback.format_exc()[-2000:])
+    ctx.cov["wall_s"] = round(time.time() - ctx.c10_t0, 1)
+
+
+def run_stages(ctx):
+    # (a) fact extraction - regen_facts catches extractor failures itself and writes Unknown tables
+    facts = stage(ctx, "fact-extraction", regen_facts, ctx) or {"notes": ["fact extraction stage failed"]}
+    # (b) Coq build of the hand files and of the generated facts
+    res = stage(ctx, "coq-build", ctx.coq_check, ("Properties.v", "PropertiesFacts.v", "PropertiesFactsPO.v")) or {}
     bad_facts = sorted(n for n, ok in res.items() if n.startswith("facts_") and not ok)
+    bad_hand = sorted(n for n, ok in res.items() if not n.startswith("facts_") and not ok)
     ctx.cov["source_obligations_broken"] = bad_facts
+    ctx.cov["hand_obligations_broken"] = bad_hand
     if bad_facts:
-        first = first_failing_lemmas(ctx)
+        first = stage(ctx, "name-first-failing-lemma", first_failing_lemmas, ctx) or []
         ctx.cov["source_fact_first_failing"] = ["%s.v: %s" % f for f in first]
         ctx.log("source-derived obligations broken; first failing lemma per file: %s (the rest of that Properties file is counted "
                 "as broken too: %s)\n  extractor notes: %s\n  the differential run below looks for a concrete failing history"
                 % (", ".join("%s.v:%s" % f for f in first) or "?", ", ".join(bad_facts), facts.get("notes")))
-    model = ctx.extract(snippets=["conv_N.ml"])
-    # the harness is built as two programs in parallel (FlatMap part / ParameterizedObject part)
-    exe, exe_po = ctx.cxx_many([dict(sources=["harness.cpp"], out="harness_fm", flags=["-DC10_NO_PO"], sanitize="asan"),
-                                dict(sources=["harness.cpp"], out="harness_po", flags=["-DC10_NO_FM"], repo_sources=REPO_SRC, sanitize="asan")])
-    if not model or not exe or not exe_po:
+    # (c) extraction + OCaml driver: optional - without it the python oracle is the reference
+    qrc, _ = vlib.sh(["make", "-f", "Makefile.coq", "-q", "Model.vo"], cwd=ctx.coqdir, timeout=120)
+    if qrc != 0:      # Model.v did not build: a Model.vo left over from an earlier run must not be extracted
+        ctx.broken.append("stage model-extraction: coq/C10/Model.vo is not up to date (Model.v does not build) - no model is extracted")
+        model = None
+    else:
+        model = stage(ctx, "model-extraction", ctx.extract, snippets=["conv_N.ml"])
+    if not model:
+        ctx.log("no executable model: the real code is compared with the independent python oracle instead")
+    # (d) harness builds, each independent, with fallbacks
+    built = stage(ctx, "harness-build", build_harnesses, ctx) or (None, False, None, False)
+    exe, fm_min, exe_po, public_only = built
+    ctx.cov["harness_builds"] = {"flatmap": "none" if not exe else ("FlatMap<int,int> only (fallback)" if fm_min else "full"),
+                                 "parameterized_object": "none" if not exe_po else ("public interface only (fallback)" if public_only else "full"),
+                                 "reference": "extracted model" if model else "python oracle"}
+    if not exe and not exe_po:
+        ctx.broken.append("no harness could be built against this tree: nothing was executed on the real code")
         return
+    stage(ctx, "differential", differential_stage, ctx, facts, bad_facts, model, exe, fm_min, exe_po, public_only)
+    ctx.trusted += ["correspondence harness harness/C10/harness.cpp + generators/oracle in props/C10/check.py (g++ -O1, ASan+UBSan)",
+                    "modelled, not verified: std::vector, std::find_if, std::stable_partition, std::shared_ptr, Any's typeid comparison "
+                    "(FactsDefs.v gives them their documented meaning on lists / positions: find_if = first match, stable_partition "
+                    "= filter p ++ filter (not p), resize/erase/push_back/at; their observable behaviour is also what the "
+                    "differential run compares)"]
+    ctx.assumptions += ["keys/values/names are compared by operator== of int and std::string (N codes in the model)"]
+    if ctx.thorough():
+        stage(ctx, "coqchk", ctx.coq_thorough_chk, ["C10.Properties", "C10.PropertiesFacts", "C10.PropertiesFactsPO"])
+
+
+def differential_stage(ctx, facts, bad_facts, model, exe, fm_min, exe_po, public_only):
     r = ctx.rng("cases")
     cases = []
     corpus = os.path.join(ctx.verif, "corpus", "C10", "cases.txt")
@@ -527,23 +670,40 @@ def run(ctx):
         cases.append(gen_F(r, 60, r.choice([2, 3, 4])) if i % 2 == 0 else gen_P(r, 60, r.choice([2, 3, 4])))
     exh = list(exhaustive_F(ctx.pick(4, 5)))
     cases += exh
-    impls = [("FlatMap<int,int>", exe, ["ii"]), ("FlatMap<string,string>", exe, ["ss"]),
-             ("FlatMap<string,vector<int>>", exe, ["sv"])]
-    pimpls = [("ParameterizedObject", exe_po, ["P"])]
+    impls = [("FlatMap<int,int>", exe, ["ii"])] + ([] if fm_min else [("FlatMap<string,string>", exe, ["ss"]),
+                                                                        ("FlatMap<string,vector<int>>", exe, ["sv"])])
+    plabel = "ParameterizedObject" + (" (public-interface fallback harness)" if public_only else "")
+    qlabel = "ParameterizedObject (two objects, copies)" + (" (public-interface fallback harness)" if public_only else "")
+    pimpls = [(plabel, exe_po, ["P"])]
+    qimpls = [(qlabel, exe_po, ["Q"])]
+    if public_only:
+        PROJ[plabel] = PROJ[qlabel] = project_public
     all_cases = cases
     pcases = [c for c in all_cases if c.startswith("P ")]
     cases = [c for c in all_cases if c.startswith("F ")]
-    mism, crashes, mlines = vlib.differential(ctx, cases, model, impls)
-    pmism, pcrashes, pmlines = vlib.differential(ctx, pcases, model, pimpls)
     qcases = [gen_Q(r, 40) for _ in range(ctx.pick(800, 8000))] + ["Q a:set:1:0:5 cab b:set:1:0:6 b:set:2:0:7 b:rm:1 a:get:1:0:100 cba a:has:2"]
-    qimpls = [("ParameterizedObject (two objects, copies)", exe_po, ["Q"])]
-    qmism, qcrashes, qmlines = vlib.differential(ctx, qcases, model, qimpls)
+    if public_only:          # the fallback harness has no `add` (findParam is protected)
+        pcases = [c for c in (strip_add(c) for c in pcases) if len(c.split()) > 1]
+        qcases = [c for c in (strip_add(c) for c in qcases) if len(c.split()) > 1]
+    mism, crashes, mlines = ([], {}, [])
+    if exe:
+        mism, crashes, mlines, _ = compare(ctx, "FlatMap", cases, model, impls)
+    else:
+        cases = []
+    pmism, pcrashes, pmlines, qmism, qcrashes, qmlines = [], {}, [], [], {}, []
+    if exe_po:
+        pmism, pcrashes, pmlines, _ = compare(ctx, "ParameterizedObject", pcases, model, pimpls)
+        qmism, qcrashes, qmlines, _ = compare(ctx, "ParameterizedObject copies", qcases, model, qimpls)
+    else:
+        pcases, qcases = [], []
     ctx.count(len(cases) * len(impls) + len(pcases) + len(qcases))
     # value types with ==-equal but distinguishable values (+-0.0f, NaNs; key-only == struct), decoded bit-exactly: the FlatMap
     # histories only (random ones and the exhaustive ones up to length 3)
     vcases = [c for c in all_cases[:ncorp + nrand] if c.startswith("F ")] + list(exhaustive_F(3))
     vimpls = [("FlatMap<int,float>", exe, ["if"]), ("FlatMap<int,{key,shadow}>", exe, ["ih"])]
-    vmism, vcrashes, _ = vlib.differential(ctx, vcases, model, vimpls)
+    if not exe or fm_min:
+        vcases, vimpls = [], []
+    vmism, vcrashes, _, _ = compare(ctx, "value identity", vcases, model, vimpls) if vcases else ([], {}, [], "")
     ctx.count(len(vcases) * len(vimpls))
     ctx.cov["value_identity_runs"] = {"instantiations": [l for (l, _, _) in vimpls], "cases": len(vcases), "mismatches": len(vmism)}
     hist = {}
@@ -583,20 +743,16 @@ def run(ctx):
     for cs, ms in ((cases, mlines), (pcases, pmlines)):
         for c, ml in list(zip(cs, ms))[:2]:
             ctx.sample({"case": c, "model_and_impl": ml[:300]})
-    report(ctx, exe, cases, impls, mism, crashes)
-    report(ctx, exe_po, pcases, pimpls, pmism, pcrashes)
-    report(ctx, exe_po, qcases, qimpls, qmism, qcrashes)
-    inventory_check(ctx, facts, hist)
-    report(ctx, exe, vcases, vimpls, vmism, vcrashes)
-    wide_arguments(ctx, model, exe, r, bad_facts)
+    stage(ctx, "report FlatMap", report, ctx, exe, cases, impls, mism, crashes)
+    stage(ctx, "report ParameterizedObject", report, ctx, exe_po, pcases, pimpls, pmism, pcrashes)
+    stage(ctx, "report ParameterizedObject copies", report, ctx, exe_po, qcases, qimpls, qmism, qcrashes)
+    stage(ctx, "report value identity", report, ctx, exe, vcases, vimpls, vmism, vcrashes)
+    if exe and exe_po and not fm_min and not public_only:
+        stage(ctx, "inventory", inventory_check, ctx, facts, hist)
+    else:
+        ctx.broken.append("inventory: execution counts not judged - not every harness could be built in full against this tree")
+    if exe and not fm_min and not over_budget(ctx):
+        stage(ctx, "wide arguments", wide_arguments, ctx, model, exe, r, bad_facts)
     ctx.cov["mismatches"] = len(mism) + len(pmism) + len(vmism) + len(qmism)
     if bad_facts and not ctx.violations:
         ctx.log("no concrete failing history found although source facts are broken: reported as no-failing-input-found")
-    ctx.trusted += ["correspondence harness harness/C10/harness.cpp + generators/oracle in props/C10/check.py (g++ -O1, ASan+UBSan)",
-                    "modelled, not verified: std::vector, std::find_if, std::stable_partition, std::shared_ptr, Any's typeid comparison "
-                    "(FactsDefs.v gives them their documented meaning on lists / positions: find_if = first match, stable_partition "
-                    "= filter p ++ filter (not p), resize/erase/push_back/at; their observable behaviour is also what the "
-                    "differential run compares)"]
-    ctx.assumptions += ["keys/values/names are compared by operator== of int and std::string (N codes in the model)"]
-    if ctx.thorough():
-        ctx.coq_thorough_chk(["C10.Properties", "C10.PropertiesFacts", "C10.PropertiesFactsPO"])
